@@ -8,7 +8,7 @@ HOOK_COMMITS = ["d0a5f52", "9f37ab8"]
 CHECKS = {
  "C01": ("model_checking",
          "explicit-state enumeration of room-definition histories x exhaustive operation catalogue on the real service, verdicts vs an independent rights oracle",
-         "Every room-definition history up to the depth bound (3 templates x creator events, applied through the real room-mutation path and propagated by the real export/import) x every caller identity x 33 operation shapes is executed on real GraphDatabaseService instances; each verdict is compared with the rights oracle, refused operations are checked to leave the database file unchanged (SQLite data_version) and authorisation rows to change only through room mutations.",
+         "Every room-definition history up to the depth bound (3 templates x creator events, applied through the real room-mutation path and propagated by the real export/import) x every caller identity x 38 operation shapes (creation incl. typed values, update, room move, nested, reference add / clear / delete, deletions, direct writes of authorisation entities, room mutations incl. the rewriting of a stored entry) is executed on real GraphDatabaseService instances; each verdict is compared with the rights oracle, refused operations are checked to leave the database file unchanged (SQLite data_version) and authorisation rows to change only through room mutations.",
          "Trusts the rights oracle (150 lines, written from the documentation), the clock hook, and that fixture rows planted unchecked with real signatures are indistinguishable from rows that arrived earlier. Bounded: 4 identities, 3 rooms, depth 2 (quick) / 3 (thorough).",
          "DESIGN.md section 5 C01"),
  "C10": ("model_checking",
@@ -18,7 +18,7 @@ CHECKS = {
          "DESIGN.md section 5 C10"),
  "C07": ("model_checking",
          "bounded-exhaustive enumeration of single attack transformations of honest room exports against the real import path, decisions vs the rights oracle",
-         "For 3 scenarios x victim {holds an earlier definition, never saw the room} x attacker {member, outsider}, every single transformation of the honest export of a richer definition (omission, duplication, re-ordering, attacker-signed entries in every list at three dates, replay of validly signed entries across lists, groups and rooms, re-labelling, re-signing, grafted groups, attacker-authored definition rows) is delivered through the real signature check and add_room_node; after acceptance no stored entry may be removed or altered and the decision matrix of the resulting room must equal the oracle's for the old entries plus the legitimately added ones; after refusal nothing may change. Honest exports are also delivered in 12 orders/multiplicities and must converge.",
+         "For 5 scenarios (incl. the attacker being a former administrator or a former user administrator) x victim {holds an earlier definition, never saw the room} x attacker {member, outsider}, every single transformation of the honest export of a richer definition (omission, duplication, re-ordering, attacker-signed entries in every list at three dates, replay of validly signed entries across lists, groups and rooms, re-labelling, re-signing, grafted groups, attacker-authored definition rows) is delivered through the real signature check and add_room_node; after acceptance no stored entry may be removed or altered and the decision matrix of the resulting room must equal the oracle's for the old entries plus the legitimately added ones; after refusal nothing may change. Honest exports are also delivered in 12 orders/multiplicities and must converge.",
          "Member and outsider attackers are never entitled, so nothing they sign is legitimate. Single transformations only (pairs are not enumerated); omissions towards a victim that never saw the room are not judged. Trusts the rights oracle and the RoomModified event as the view of the resulting room.",
          "DESIGN.md section 5 C07"),
  "C03": ("model_checking",
@@ -48,7 +48,7 @@ CHECKS = {
          "DESIGN.md section 5 C08"),
  "C18": ("model_checking",
          "exhaustive enumeration of operation sequences, same-batch pairs (writer gate) and interrupted pulls on the real service with two subscribers, differential oracle on stored content",
-         "Every sequence of up to 2 operations (3 over a core alphabet in thorough) from 16 operations (create/update/delete over 2 rooms x 2 entities x 2 days, a closed mutation stream, a room mutation, ingestion by a real pull), every ordered pair of local operations forced into one writer transaction by parking the writer at its gate, and pulls interrupted after 1..14 protocol answers run on a real instance with two subscribers; once quiescent every (room, entity, day) cell whose stored signatures changed must have been named by a data-changed event on both subscribers, every accepted room mutation must have produced a room-modified event, and no recompute mark may remain.",
+         "Every sequence of up to 2 operations (3 over a core alphabet in thorough) from 23 operations (create/update/delete over 2 rooms x 2 entities x 2 days, nested create / update through an unchanged owner / attach, a closed mutation stream, a room mutation alone and together with a row in one request, ingestion by a real pull over a shared two-day history), every ordered pair of local operations forced into one writer transaction by parking the writer at its gate, and pulls interrupted after 1..14 protocol answers run on a real instance with two subscribers; once quiescent every (room, entity, day) cell whose stored signatures changed must have been named by a data-changed event on both subscribers, every accepted room mutation must have produced a room-modified event, and no recompute mark may remain.",
          "Quiescence = two FIFO round trips through database actor, writer and event service. Subscribers are drained after every workload (the broadcast channel holds 16 events; overflow of an undrained subscriber is not explored).",
          "DESIGN.md section 5 C18"),
 
